@@ -112,7 +112,7 @@ InitW(hasPw, pw, srvPw, hasSrvPw, auth, pic) ==
     out |-> <<>>, reps |-> <<>>, wr |-> 0, dl |-> 0, rd |-> 0,
     nlines |-> 0, lastK |-> "", nwritesAfterReject |-> 0,
     reqs |-> <<>>, curList |-> <<>>,
-    owed |-> <<>>, tmo |-> FALSE,
+    alts |-> {[ow |-> <<>>, lx |-> 0]}, lxRep |-> 0, tmo |-> FALSE,
     fault |-> "", poison |-> -1, lostAt |-> -1, obs |-> {}, surfaced |-> FALSE,
     nClosingEv |-> 0, evEnded |-> FALSE, evAfterEnd |-> FALSE, evAfterClosing |-> FALSE,
     handles |-> 0, ioDropped |-> FALSE, connected |-> "", nconf |-> 0,
@@ -138,7 +138,8 @@ Emit(w, kind, ls, ri) ==
                          LET i == CHOOSE x \in idxs : Cardinality({y \in idxs : y < x}) = j - 1 IN
                          [name |-> ls[i].v, lineEnd |-> ends[i], replyEnd |-> ends[Len(ls)], exc |-> FALSE, idx |-> i]]
                  ELSE <<>>
-  IN [w EXCEPT !.out = @ \o newOut, !.reps = Append(@, rep), !.wr = ends[Len(ls)], !.owed = @ \o owedNew]
+  IN [w EXCEPT !.out = @ \o newOut, !.reps = Append(@, rep), !.wr = ends[Len(ls)],
+             !.alts = {[a EXCEPT !.ow = @ \o owedNew] : a \in @}]
 
 IdleReply(w) == Emit([w EXCEPT !.pend = <<>>, !.mode = "ready"], "idle",
                      [i \in 1..Len(w.pend) |-> Fld(CHANGED, w.pend[i])] \o <<OkL>>, 0)
@@ -204,7 +205,7 @@ WCliLineD(w, ln, dig(_, _, _)) ==
       w6 == IF ln.k = "idle" /\ w.mode # "idle" /\ healthy THEN Chk(w5, w.rd = w.wr, "C05", "idle written while earlier server output is still unread") ELSE w5
       \* --- F-C04-2 precondition: noidle while an idle reply is partly read with >= 1 complete changed line
       w7 == IF ln.k = "noidle"
-            THEN [w6 EXCEPT !.owed = [k \in 1..Len(@) |-> IF @[k].lineEnd <= w.rd /\ @[k].replyEnd > w.rd THEN [@[k] EXCEPT !.exc = TRUE] ELSE @[k]]]
+            THEN [w6 EXCEPT !.alts = {[a EXCEPT !.ow = [k \in 1..Len(@) |-> IF @[k].lineEnd <= w.rd /\ @[k].replyEnd > w.rd THEN [@[k] EXCEPT !.exc = TRUE] ELSE @[k]]] : a \in @}]
             ELSE w6
   IN
   IF w7.silent THEN w7 ELSE
@@ -273,7 +274,7 @@ WFaultCut(w, lost) == [w EXCEPT !.wr = @ - lost]
 \* F-C04-2 has a second face: the lines of a partly received idle reply that were dropped with the cancelled
 \* receive are forgotten, so an end of stream at that point looks like a clean close to the client.
 WReadEof(w)  == LET dirty == ~AtBoundary(w)
-                    afterDrop == \E k \in 1..Len(w.owed) : w.owed[k].exc /\ w.owed[k].lineEnd <= w.rd /\ w.rd < w.owed[k].replyEnd IN
+                    afterDrop == \E a \in w.alts : \E k \in 1..Len(a.ow) : a.ow[k].exc /\ a.ow[k].lineEnd <= w.rd /\ w.rd < a.ow[k].replyEnd IN
                 Chk([w EXCEPT !.obs = @ \cup {IF dirty THEN (IF afterDrop THEN "eof_dirty_after_drop" ELSE "eof_dirty") ELSE "eof_clean"}],
                     w.fault # "", "HARNESS", "EOF without fault")
 WReadErr(w)  == [w EXCEPT !.obs = @ \cup {"read_err"}]
@@ -312,15 +313,16 @@ WCancel(w, c, n) == LET ri == ReqIndex(w, c, n) IN
 WDropHandle(w, left) == [w EXCEPT !.handles = left, !.tmo = IF left = 0 THEN FALSE ELSE @]
 
 \* --- events (C04, C08)
-RECURSIVE FirstMatch(_, _, _)
-FirstMatch(ow, name, k) == IF k > Len(ow) THEN 0 ELSE IF ow[k].name = name THEN k ELSE IF ow[k].exc THEN FirstMatch(ow, name, k + 1) ELSE 0
-
+\* The monitor keeps every interpretation of the events seen so far that is consistent with what is owed
+\* (w.alts: residual owed sequences with the number lx of excusable entries skipped).  An event may match an
+\* entry only if every earlier entry is excusable (F-C04-2 precondition, marked when noidle is written).
+\* A violation is raised only if NO interpretation is consistent.
+Cands(a, name) == {k \in 1..Len(a.ow) : a.ow[k].name = name /\ \A j \in 1..(k - 1) : a.ow[j].exc}
 WEvent(w, name) ==
-  LET k == FirstMatch(w.owed, name, 1)
-      w0 == Chk(w, ~w.evEnded /\ w.nClosingEv = 0, "C08", "subsystem event after the closing event / end of the event stream")
-      w1 == Chk(w0, k > 0, "C04", "event not owed (invented, duplicated or out of order)")
-      w2 == IF k > 1 THEN V(w1, "C04", "notification lost: partial idle reply dropped when a request arrived", "F-C04-2") ELSE w1 IN
-  [w2 EXCEPT !.owed = IF k > 0 THEN SubSeq(@, k + 1, Len(@)) ELSE @]
+  LET new == UNION {{[ow |-> SubSeq(a.ow, k + 1, Len(a.ow)), lx |-> a.lx + (k - 1)] : k \in Cands(a, name)} : a \in w.alts}
+      w0 == Chk(w, ~w.evEnded /\ w.nClosingEv = 0, "C08", "subsystem event after the closing event / end of the event stream") IN
+  IF new = {} THEN V(w0, "C04", "event not owed (invented, duplicated or out of order)", "")
+  ELSE [w0 EXCEPT !.alts = new]
 
 WClosingEvent(w, kind) ==
   LET w1 == Chk(w, w.nClosingEv = 0, "C08", "more than one closing event") IN
@@ -356,16 +358,23 @@ WConnected(w, ok, err, version, nh, greetOk, greetVersion, greetCut) ==
 AllSeen(w) == \A i \in 1..Len(w.reqs) : w.reqs[i].seen
 WTimeout(w) == [w EXCEPT !.tmo = (w.phase = "up" /\ w.mode = "ready" /\ w.rd = w.wr /\ AllSeen(w) /\ w.fault = "" /\ w.handles > 0 /\ w.nlines > 0)]
 
+IsDue(w, e) == /\ e.replyEnd <= w.rd
+               /\ (w.poison < 0 \/ e.replyEnd <= w.poison)
+               /\ (w.lostAt < 0 \/ e.replyEnd <= w.lostAt)
+MinLx(alts) == CHOOSE x \in {a.lx : a \in alts} : \A y \in {a.lx : a \in alts} : x <= y
 WQuiescent(w) ==
-  LET due == {k \in 1..Len(w.owed) : /\ w.owed[k].replyEnd <= w.rd
-                                      /\ (w.poison < 0 \/ w.owed[k].replyEnd <= w.poison)
-                                      /\ (w.lostAt < 0 \/ w.owed[k].replyEnd <= w.lostAt)}
-      lostIdx == {w.owed[k].idx : k \in {j \in due : ~w.owed[j].exc}}
-      w1 == IF \A k \in due : w.owed[k].exc THEN w
-            ELSE V(w, "C04", "notification lost: idle reply completely read, event never delivered", IF \A i \in lostIdx : i > 1 THEN "not-first-changed-line" ELSE "")
-      w2 == IF \E k \in due : w.owed[k].exc THEN V(w1, "C04", "notification lost: partial idle reply dropped when a request arrived", "F-C04-2") ELSE w1
-      w3 == [w2 EXCEPT !.owed = SelectSeq(@, LAMBDA e : ~(e.replyEnd <= w.rd))]
-      w4 == Chk(w3, ~(w.tmo /\ AllSeen(w) /\ w.rd = w.wr /\ w.fault = "" /\ w.handles > 0) \/ w.lastK = "idle", "C05", "no idle after the re-idle delay expired")
+  LET Bad(a) == \E k \in 1..Len(a.ow) : IsDue(w, a.ow[k]) /\ ~a.ow[k].exc
+      good == {a \in w.alts : ~Bad(a)}
+      Purge(a) == [ow |-> SelectSeq(a.ow, LAMBDA e : ~IsDue(w, e)),
+                   lx |-> a.lx + Cardinality({k \in 1..Len(a.ow) : IsDue(w, a.ow[k]) /\ a.ow[k].exc})]
+      any == CHOOSE a \in w.alts : \A b \in w.alts : a.lx <= b.lx
+      lostIdx == {any.ow[k].idx : k \in {j \in 1..Len(any.ow) : IsDue(w, any.ow[j]) /\ ~any.ow[j].exc}}
+      w1 == IF good # {} THEN [w EXCEPT !.alts = {Purge(a) : a \in good}]
+            ELSE V([w EXCEPT !.alts = {Purge(a) : a \in @}], "C04", "notification lost: idle reply completely read, event never delivered",
+                   IF \A x \in lostIdx : x > 1 THEN "not-first-changed-line" ELSE "")
+      m == MinLx(w1.alts)
+      w2 == IF m > w.lxRep THEN V([w1 EXCEPT !.lxRep = m], "C04", "notification lost: partial idle reply dropped when a request arrived", "F-C04-2") ELSE w1
+      w4 == Chk(w2, ~(w.tmo /\ AllSeen(w) /\ w.rd = w.wr /\ w.fault = "" /\ w.handles > 0) \/ w.lastK = "idle", "C05", "no idle after the re-idle delay expired")
   IN [w4 EXCEPT !.tmo = FALSE]
 
 \* --- end of run: fin = [closed, closedKnown, evEnded, ioDropped, unresolved (set of <<c,n>>), alive]
